@@ -132,6 +132,10 @@ func (C16) Run(s any, c *core.Ctx) core.Outcome {
 		out.Violation = v
 		return out
 	}
+	if v := c16MapRowsFromBuffer(sh, pristine, sc.Churn); v != nil {
+		out.Violation = v
+		return out
+	}
 
 	churn := func() *core.Violation {
 		// an unrelated writer and reader run to completion
@@ -551,5 +555,61 @@ func c16MapRows(c *core.Ctx, sh gen.Shape, data []byte, nrows int) (v *core.Viol
 		}
 	}
 	c.Probe("map-rows-read")
+	return nil
+}
+
+// c16MapRowsFromBuffer reads an in-memory buffer as map[string]any rows, then
+// resets and refills the buffer with other rows (its column memory goes back to
+// the pools and out again): the values handed out before must not change.
+func c16MapRowsFromBuffer(sh gen.Shape, data gen.Data, churn WritePlan) (v *core.Violation) {
+	if data.Len() == 0 || sh.HasMap() {
+		return nil
+	}
+	defer func() {
+		if p := recover(); p != nil {
+			v = core.Violate("C16/panic/map-rows-buffer", "panic: %v%s", p, core.StackIfWanted())
+		}
+	}()
+	n := min(data.Len(), 100)
+	buf := sh.NewBuffer(gen.BUntyped)
+	if _, err := buf.Write(data, 0, n); err != nil {
+		return core.Violate("C16/write-error/map-rows-buffer", "%v", err)
+	}
+	r := parquet.NewGenericRowGroupReader[map[string]any](buf, sh.Schema())
+	rows := make([]map[string]any, n)
+	for i := range rows {
+		rows[i] = map[string]any{}
+	}
+	got := 0
+	for got < n {
+		m, err := r.Read(rows[got:])
+		got += m
+		if err != nil || m == 0 {
+			break
+		}
+	}
+	r.Close()
+	snaps := make([]string, got)
+	for i := 0; i < got; i++ {
+		snaps[i] = fmt.Sprintf("%#v", rows[i])
+	}
+	// other rows of the same shape through the same buffer and a second one
+	other := sh.Make(churn.RowSeed+17, n, gen.Profile(churn.Profile))
+	for round := 0; round < 2; round++ {
+		buf.Reset()
+		if _, err := buf.Write(other, 0, other.Len()); err != nil {
+			return core.Violate("C16/write-error/map-rows-buffer", "%v", err)
+		}
+		b2 := sh.NewBuffer(gen.BUntyped)
+		if _, err := b2.Write(other, 0, other.Len()); err != nil {
+			return core.Violate("C16/write-error/map-rows-buffer", "%v", err)
+		}
+		b2.Reset()
+	}
+	for i := 0; i < got; i++ {
+		if now := fmt.Sprintf("%#v", rows[i]); now != snaps[i] {
+			return core.Violate("C16/typed-value-changed/map-rows-buffer", "row %d read from an in-memory buffer as map[string]any changed after the buffer was reset and refilled", i)
+		}
+	}
 	return nil
 }
